@@ -18,7 +18,7 @@ EXPLANATION = (
     "the cap by the very Irr that is returned. C13.c (index spaces): Schedule is built on ClockStruct.time_span and read "
     "at the time-step counter; SMT is read at int(growth_stage)-1 and growth_stage is set to 1 on the first day of a "
     "season before it is used. C13.d: each strategy's parameter is read only inside that strategy's branch. C13.e: the daily schedule is aligned with the simulation days by label; a day offset used as an array position "
-    "must be checked against 0 and the length (negative offsets wrap). C13.f: the interval day test is (dap - 1) % interval == 0 (normal form). C13.g: the net-irrigation refill uses each layer's own threshold (= C04.e). NOT decided: "
+    "must be checked against 0 and the length (negative offsets wrap). C13.f: the interval day test is (dap - 1) % interval == 0 (normal form). C13.g: the net-irrigation refill uses each layer's own threshold (= C04.e). C13.h: the growth-stage lengths of compute_crop_calendar are derived by the same expressions in the calendar-day and the degree-day branch (modulo the CD suffix) and the degree-day branch reads no calendar-day parameter - the end of stage 1 selects the threshold of the soil-moisture strategy. NOT decided: "
     "the ((dap-1) % k), the threshold comparison and the refill amount (numeric).")
 
 
@@ -132,6 +132,68 @@ def rule_f(chk, prog):
                 chk.violation("C13.f", where, construct, f"the interval test is on {A.text(left)[:60]} % {norm(c.left.right)} {'== 0' if zero else norm(c.comparators[0])}, "
                               f"not on ({f_dap} - 1) % {f_int} == 0: irrigation does not fall on days 1, 1+k, 1+2k after planting", loc=fi.loc(c))
     chk.floor("C13.f", n, 1, "interval day tests in irrigation()")
+
+
+def rule_h(chk, prog):
+    """C13.h (growth stages of a thermal-time crop are bounded in thermal time - T-UNIT, sibling rule): compute_crop_calendar derives the
+    stage lengths twice, in calendar days (Mode == 1: XCD from YCD / Y_CD parameters) and in growing degree days (Mode == 2: X from Y).
+    For every derived attribute with a twin in the other branch the two defining expressions are the same after dropping the CD suffix,
+    and the degree-day branch reads no calendar-day parameter (`crop.CGC_CD` for `crop.CGC`): the end of growth stage 1 (10 % canopy
+    cover), which selects the soil-moisture threshold in force, would otherwise be a calendar-day rate applied to degree days."""
+    import re
+    fi = prog.find_func("compute_crop_calendar")
+    chk.fn(fi.key)
+    where = f"{fi.module}:{fi.qualname}"
+    from ..rdef import flow_of
+    flow = flow_of(fi)
+    cfg = flow.cfg
+    def strip(name):
+        return re.sub(r"_?CD$", "", name)
+    class Canon(ast.NodeTransformer):
+        def visit_Attribute(self, n):
+            self.generic_visit(n)
+            return ast.Attribute(value=n.value, attr=strip(n.attr), ctx=n.ctx)
+    import copy
+    defs = {1: {}, 2: {}}
+    raw = {1: {}, 2: {}}
+    for a in walk_no_nested(fi.node):
+        if not (isinstance(a, ast.Assign) and isinstance(a.targets[0], ast.Attribute) and isinstance(a.targets[0].value, ast.Name)):
+            continue
+        nid = flow.stmt_node.get(id(a))
+        if nid is None:
+            continue
+        modes = {int(m.group(1)) for t, l in cfg.transitive_control_deps(nid) if cfg.nodes[t].kind == "test" and l is True
+                 for m in [re.match(r"^Mode == (\d)$", norm(cfg.nodes[t].ast))] if m}
+        if len(modes) != 1:
+            continue
+        m = modes.pop()
+        if m not in (1, 2):
+            continue
+        # plain duplications (X = XCD) are bookkeeping, not derivations
+        if isinstance(a.value, ast.Attribute):
+            continue
+        # calendar-day quantities carry the CD suffix, thermal-time ones do not: only the branch's own kind is a derivation of the stage length
+        # (the degree-day branch also converts its stages *to* calendar days from the weather - another computation)
+        has_cd = bool(re.search(r"_?CD$", a.targets[0].attr))
+        if (m == 1) != has_cd:
+            continue
+        tgt = strip(a.targets[0].attr)
+        defs[m].setdefault(tgt, set()).add(ast.unparse(Canon().visit(copy.deepcopy(a.value))))
+        raw[m].setdefault(tgt, []).append(a)
+    twins = sorted(set(defs[1]) & set(defs[2]))
+    for t in twins:
+        construct = f"crop.{t}: calendar-day vs degree-day derivation"
+        a2 = raw[2][t][0]
+        cd_reads = sorted({x.attr for a_ in raw[2][t] for x in ast.walk(a_.value) if isinstance(x, ast.Attribute) and re.search(r"_?CD$", x.attr)})
+        if cd_reads:
+            chk.violation("C13.h", where, construct, f"the degree-day branch computes crop.{a2.targets[0].attr} from the calendar-day parameter(s) {', '.join(cd_reads)}: a "
+                          "per-day rate applied to degree days - the growth stage that selects the soil-moisture threshold ends at the wrong time for every thermal-time crop",
+                          loc=fi.loc(a2))
+        elif defs[1][t] != defs[2][t]:
+            chk.violation("C13.h", where, construct, f"the two branches derive the stage differently: {sorted(defs[1][t])[0][:70]} vs {sorted(defs[2][t])[0][:70]}", loc=fi.loc(a2))
+        else:
+            chk.ok("C13.h", where, construct, "same expression modulo the CD suffix; no calendar-day parameter in the degree-day branch")
+    chk.floor("C13.h", len(twins), 4, "stage lengths derived in both calendar branches")
 
 
 def run(chk, prog, tier):
@@ -334,6 +396,7 @@ def run(chk, prog, tier):
     # threshold (rule C03.d restricted to transpiration)
     from .c03 import rule_d as own_thresholds
     own_thresholds(chk, prog, rule="C13.g", only={"transpiration"}, floor=1)
+    rule_h(chk, prog)
     chk.exhaustive = True
 
 
